@@ -10,6 +10,9 @@ package main
 //
 // case line: C05 <api|e2e> <n> <shard of name 0>.<shard of name 1>... <op>,<op>,... => <obs>;<obs>;...
 //
+// al mode (c05align.go): backends with dynamic scaling through a real Instance (simulated sockets): scale-ups applied
+//   without reload, reloads that run alignSlots over every backend; every file against a fresh rendering of the items.
+//
 // fx mode (c05faults.go): ingresses (host with TLS + backend with per-path ACLs) and a tcp service through a
 //   real Instance with write faults injected between successful updates; every file against a fresh instance.
 
@@ -36,6 +39,10 @@ func init() {
 	replayers["C05"] = func(c *ctx, a []string) {
 		if len(a) == 5 && a[0] == "fx" {
 			c05fxReplay(c, a)
+			return
+		}
+		if len(a) == 5 && a[0] == "al" {
+			c05alReplay(c, a)
 			return
 		}
 		if len(a) != 4 {
@@ -1010,7 +1017,13 @@ func c05random(c *ctx) {
 }
 
 func runC05(c *ctx) {
+	if os.Getenv("C05_ONLY") == "al" { // debugging aid: only the histories of c05align.go
+		runC05alCorpus(c)
+		runC05al(c)
+		return
+	}
 	c05corpus(c)
+	runC05alCorpus(c) // corpus of c05align.go
 	c05exhaustive(c)
 	c05random(c)
 	nMaps := 300
@@ -1018,5 +1031,6 @@ func runC05(c *ctx) {
 		nMaps = 5000
 	}
 	c05mapsRandom(c, gen.New(c.seed).Fork(), nMaps)
+	runC05al(c) // histories with the dynamic updater and alignSlots (c05align.go)
 	runC05fx(c) // histories with failed updates (c05faults.go)
 }
